@@ -99,6 +99,16 @@ CLAIMS = {
             'find_equivalent_positions + checked correspondence with space-group operations exported from pymatgen per case',
             'Proof: points within the radius, count = number of (operation, position) pairs, distance preserved, inverse image, supercell folding; the +-1 re-imaging is refuted (D14, fixed).',
             'Trusted: Coq kernel/vm_compute, harness, pymatgen symmetry tables (checked per case for metric preservation and inverses). Closed under the global context.', 'DESIGN.md §5 C17'),
+    'C07': ('Coq theorems: invariance lemmas of the exact geometry (only the Gram matrix enters; common translation; wrapping), relabelling commutes with the event log, '
+            'the jump scan and the count matrix, atom permutations, grid roll of paths and volumes + metamorphic runs of the whole real pipeline on a system and its four transformed copies, '
+            'with the commuting square for site states and volumes checked on exact geometry in Coq',
+            'Proof: model(g X) = g model(X) for every stage; the ties of C02-C12 connect each stage to the code and the metamorphic oracle compares impl(g X) with g impl(X) directly.',
+            'Trusted: Coq kernel/vm_compute, harness (guard band; translations by multiples of 1/8; non-overlapping spheres), per-stage ties.', 'DESIGN.md §5 C07'),
+    'C18': ('Coq theorems (bond wrap = minimum image below half the cell width via the C17 geometric lemma; transpose-closure makes the einsum result a permutation of the group images; '
+            'Cauchy-Schwarz bound and invariances of the autocorrelation definition; real-number facts for normalisation) + checked correspondence on tetrahedral clusters and all 20 '
+            'non-hexagonal point groups + interval certificates for the spherical round trip',
+            'Proof: vectors are minimum-image bonds, symmetrise = images under the group, transform linear, normalise unit/direction; the autocorrelation as coded is NOT its definition (known finding D15).',
+            'Trusted: Coq kernel/vm_compute, stdlib real axioms (normalisation only), Interval, harness, pymatgen point-group tables (checked per case).', 'DESIGN.md §5 C18'),
 }
 PENDING_REASON = 'not yet claimed in this revision: model/tie under construction (see DESIGN.md §11 build order)'
 
